@@ -20,9 +20,9 @@ def run_model(tag, loaders, flags, causes, lens, maxsteps):
     cfg = os.path.join(WORK, tag, f"mc_{maxsteps}.cfg")
     os.makedirs(os.path.join(WORK, tag), exist_ok=True)
     st = lambda xs: "{" + ", ".join(('"%s"' % x) if isinstance(x, str) else str(x) for x in xs) + "}"
-    write_cfg(cfg, {"MaxSteps": maxsteps, "BugLeakOnError": False, "LoaderSet": st(loaders), "FlagSet": st(flags),
+    write_cfg(cfg, {"MaxSteps": maxsteps, "BugLeakOnError": False, "BugNoTruncate": False, "LoaderSet": st(loaders), "FlagSet": st(flags),
                     "CauseSet": st(causes), "LenSet": st(lens)},
-              invariants=["RegionSound", "LiveWhileReadable", "ReleasedAtMostOnce", "NoLeakOnFailure",
+              invariants=["StoreExact", "RegionSound", "LiveWhileReadable", "ReleasedAtMostOnce", "NoLeakOnFailure",
                           "ReleasedWhenDropped", "StructureBeforeBackend", "EmitM"])
     r = tlc("MC_MemCase", cfg, tag, workers=8, timeout=3000)
     if not r.ok:
@@ -73,8 +73,10 @@ def to_cases(beh, nommap):
         for ty in tys:
             # vec8 reaches every residue of the file length modulo 64 through its payload length
             n = b["flen"] % 64 if ty == "vec8" else (b["flen"] % 7) + 1
-            cut = [0, 5, 29, 40, 1000][b["flen"] % 5]
-            c = {"loader": b["loader"], "flags": b["flags"], "cause": b["cause"], "ty": ty, "n": n, "ops": ops}
+            # cut points: inside the header (error) and inside the payload (ε-copy may panic on a bounds check)
+            cut = [0, 5, 29, 40, -1, -9, -20][b["flen"] % 7]
+            c = {"loader": b["loader"], "flags": b["flags"], "cause": b["cause"], "ty": ty, "n": n, "ops": ops,
+                 "prior": b["prior"]}
             if b["cause"] == "trunc":
                 c["cut"] = cut
             k = json.dumps(c, sort_keys=True)
